@@ -43,17 +43,10 @@ func namedName(t types.Type) (pkg, name string) {
 	return "", ""
 }
 
-// calleeSpec finds the contract that governs a call site.
-func (fc *fnCtx) calleeSpec(st *State, fr *frame, call ssa.CallInstruction) (spec *effSpec, recv *Val, args []Val, resT []types.Type) {
+// lookupSpec finds the contract that governs a call site (no evaluation).
+func (fc *fnCtx) lookupSpec(call ssa.CallInstruction) *effSpec {
 	c := call.Common()
-	sig := c.Signature()
-	for i := 0; i < sig.Results().Len(); i++ {
-		resT = append(resT, sig.Results().At(i).Type())
-	}
 	if c.IsInvoke() {
-		r := fc.val(st, c.Value)
-		recv = &r
-		args = fc.callArgs(st, c)
 		pkg, static := namedName(c.Value.Type())
 		owner := ifaceMethodOwner(c.Method)
 		ownerPkg := pkg
@@ -62,10 +55,41 @@ func (fc *fnCtx) calleeSpec(st *State, fr *frame, call ssa.CallInstruction) (spe
 		}
 		for _, k := range []string{pkg + "." + static + "." + c.Method.Name(), ownerPkg + "." + owner + "." + c.Method.Name()} {
 			if fs := fc.e.contracts.Funcs[k]; fs != nil {
-				return fc.e.effective(fs, k), recv, args, resT
+				return fc.e.effective(fs, k)
 			}
 		}
-		return nil, recv, args, resT
+		return nil
+	}
+	if callee := c.StaticCallee(); callee != nil {
+		k := fc.e.keyOf(callee)
+		if fs := fc.e.contracts.Funcs[k]; fs != nil && !fs.Flags["inline"] {
+			return fc.e.effective(fs, k)
+		}
+		return nil
+	}
+	pkg, name := namedName(c.Value.Type())
+	if name != "" {
+		k := pkg + "." + name + ".call"
+		if fs := fc.e.contracts.Funcs[k]; fs != nil {
+			return fc.e.effective(fs, k)
+		}
+	}
+	return nil
+}
+
+// calleeSpec finds the contract that governs a call site and evaluates receiver and arguments.
+func (fc *fnCtx) calleeSpec(st *State, fr *frame, call ssa.CallInstruction) (spec *effSpec, recv *Val, args []Val, resT []types.Type) {
+	c := call.Common()
+	sig := c.Signature()
+	for i := 0; i < sig.Results().Len(); i++ {
+		resT = append(resT, sig.Results().At(i).Type())
+	}
+	spec = fc.lookupSpec(call)
+	if c.IsInvoke() {
+		r := fc.val(st, c.Value)
+		recv = &r
+		args = fc.callArgs(st, c)
+		return
 	}
 	if callee := c.StaticCallee(); callee != nil {
 		all := fc.callArgs(st, c)
@@ -75,25 +99,12 @@ func (fc *fnCtx) calleeSpec(st *State, fr *frame, call ssa.CallInstruction) (spe
 		} else {
 			args = all
 		}
-		// bound method closures and thunks are handled by the caller
-		k := fc.e.keyOf(callee)
-		if fs := fc.e.contracts.Funcs[k]; fs != nil && !fs.Flags["inline"] {
-			return fc.e.effective(fs, k), recv, args, resT
-		}
-		return nil, recv, args, resT
+		return
 	}
-	// dynamic call through a function value
 	args = fc.callArgs(st, c)
 	fv := fc.val(st, c.Value)
 	recv = &fv
-	pkg, name := namedName(c.Value.Type())
-	if name != "" {
-		k := pkg + "." + name + ".call"
-		if fs := fc.e.contracts.Funcs[k]; fs != nil {
-			return fc.e.effective(fs, k), recv, args, resT
-		}
-	}
-	return nil, recv, args, resT
+	return
 }
 
 // effective merges a function contract with the interface contracts it implements.
@@ -204,7 +215,7 @@ func (e *Engine) externalSig(key string) *types.Signature { return nil }
 
 // calleeCtx builds the evaluation context of a contract at a call site.
 func (fc *fnCtx) calleeCtx(st *State, spec *effSpec, params []string, recv *Val, args []Val, res []Val) *specCtx {
-	sc := &specCtx{fc: fc, st: st, heap: st.heap, now: st.now, vars: map[string]Val{}, result: res}
+	sc := &specCtx{fc: fc, st: st, heap: st.heap, now: st.now, vars: map[string]Val{}, params: map[string]Val{}, result: res}
 	if recv != nil && recv.GT != nil {
 		sc.tparamOf = typeArgMap(recv.GT)
 	}
@@ -216,11 +227,11 @@ func (fc *fnCtx) calleeCtx(st *State, spec *effSpec, params []string, recv *Val,
 	}
 	for i, p := range params {
 		if i < len(args) && p != "" && p != "_" {
-			sc.vars[p] = args[i]
+			sc.params[p] = args[i]
 		}
 	}
 	for i, a := range args {
-		sc.vars[fmt.Sprintf("$%d", i+1)] = a
+		sc.params[fmt.Sprintf("$%d", i+1)] = a
 	}
 	return sc
 }
@@ -248,7 +259,12 @@ func (fc *fnCtx) doCall(st *State, fr *frame, call *ssa.Call, k func(*State, Val
 	}
 	if callee := c.StaticCallee(); callee != nil {
 		if mc, ok := c.Value.(*ssa.MakeClosure); ok {
-			_ = mc
+			var binds []Val
+			for _, b := range mc.Bindings {
+				binds = append(binds, fc.val(st, b))
+			}
+			fc.inlineClosure(st, fr, site, &closureInfo{fn: callee, binds: binds}, args, k)
+			return
 		}
 		if fc.e.inRepo(callee) && len(originOf(callee).Blocks) > 0 {
 			fc.inline(st, fr, site, originOf(callee), recv, args, k)
@@ -440,6 +456,15 @@ func (fc *fnCtx) applySpec(st *State, fr *frame, site string, spec *effSpec, rec
 		if g, ok := evalIn(sc, r, SBool); ok {
 			fc.emit(st, fc.oblName(fr, fmt.Sprintf("pre@%s.%s.requires%d", site, shortKey(spec.key), r.Ord)), "pre", r.Text, clauseLoc(r.Clause), g, nil)
 			st.pc = append(st.pc, g)
+		}
+	}
+	if !spec.flags["nilok"] {
+		if psig := fc.calleeParamTypes(spec); psig != nil {
+			for i, a := range args {
+				if i < len(psig) && nonNilParam(psig[i]) && a.S == SU {
+					fc.emit(st, fc.oblName(fr, fmt.Sprintf("pre@%s.%s.nonnil%d", site, shortKey(spec.key), i+1)), "pre", "interface argument is not nil", "", not(eq(a.T, "nil")), nil)
+				}
+			}
 		}
 	}
 	if spec.flags["mayblock"] {
@@ -794,4 +819,37 @@ func typeArgMap(t types.Type) map[string]types.Type {
 		m[tps.At(i).Obj().Name()] = n.TypeArgs().At(i)
 	}
 	return m
+}
+
+// calleeParamTypes returns the declared parameter types of the function or
+// interface method a contract belongs to.
+func (fc *fnCtx) calleeParamTypes(spec *effSpec) []types.Type {
+	var sig *types.Signature
+	if f := fc.e.funcs[spec.key]; f != nil {
+		sig = f.Signature
+	} else {
+		parts := strings.Split(spec.key, ".")
+		if len(parts) == 3 {
+			if named := fc.e.typeByKey[parts[0]+"."+parts[1]]; named != nil {
+				switch u := named.Underlying().(type) {
+				case *types.Interface:
+					for i := 0; i < u.NumMethods(); i++ {
+						if u.Method(i).Name() == parts[2] {
+							sig = u.Method(i).Type().(*types.Signature)
+						}
+					}
+				case *types.Signature:
+					sig = u
+				}
+			}
+		}
+	}
+	if sig == nil {
+		return nil
+	}
+	var ts []types.Type
+	for i := 0; i < sig.Params().Len(); i++ {
+		ts = append(ts, sig.Params().At(i).Type())
+	}
+	return ts
 }
